@@ -32,23 +32,9 @@ def handle (st : DState) (line : String) : DState × String :=
     ({ st with dump := d }, s!"loaded {d.table.states.size}")
   | "cert" =>
     match fields rest with
-    | ["structural", a, b] =>
-      (st, if Cert.structural st.dump.grammar st.dump.table (natOf a) (natOf b) st.dump.grammar.startIdx then "1" else "0")
-    | ["lr-total"] =>
-      -- all certificates the no-panic theorem needs, for the main and (if present) the layout automaton
-      let g := st.dump.grammar
-      let t := st.dump.table
-      let main := Cert.structural g t 0 0 g.startIdx && Cert.total g t 0
-      let lay := match t.layoutState with
-        | none => true
-        | some ls =>
-          match (List.range g.prods.size).find? (fun p => some (g.prods.getD p default).lhs == g.auglIdx) with
-          | some augl =>
-            (match (g.prods.getD augl default).rhs with
-             | [lsym] => Cert.structural g t ls augl lsym && Cert.total g t ls
-             | _ => false)
-          | none => false
-      (st, if main && lay then "1" else "0")
+    | ["structural", _, _] =>
+      (st, if Cert.structural st.dump.grammar st.dump.table (autosOf st.dump.grammar st.dump.table) then "1" else "0")
+    | ["lr-total"] => (st, if Cert.lr st.dump.grammar st.dump.table then "1" else "0")
     | ["noshiftstop"] => (st, if Cert.noShiftStop st.dump.table then "1" else "0")
     | _ => (st, "bad-request")
   | "cover" =>
